@@ -163,12 +163,19 @@ impl<T, E> Write<Result<T, E>> {
 pub unsafe trait DerefWrite: Deref {}
 
 // SAFETY: All these types have pure & non-GC-traversing Deref impls
-unsafe impl<T: ?Sized> DerefWrite for &T {}
+//
+// `Box` and `Vec` own their target exclusively, so it is part of the same GC'd object as the
+// pointer itself. References and `Rc` / `Arc` do not: a `&T` may point into a *different* `Gc`
+// (so `Write::from_mut(&mut some_ref).as_deref()` would forge a `&Write<T>` for an object that
+// never saw a write barrier), and an `Rc<T>` / `Arc<T>` may be shared with another, already
+// traced `Gc` that the barrier on this one does not cover. Projecting a `Write` through them is
+// therefore only allowed when the target is `'static`, i.e. cannot hold `Gc` pointers at all.
+unsafe impl<T: ?Sized + 'static> DerefWrite for &T {}
 unsafe impl<T: ?Sized> DerefWrite for alloc::boxed::Box<T> {}
 unsafe impl<T> DerefWrite for Vec<T> {}
-unsafe impl<T: ?Sized> DerefWrite for alloc::rc::Rc<T> {}
+unsafe impl<T: ?Sized + 'static> DerefWrite for alloc::rc::Rc<T> {}
 #[cfg(target_has_atomic = "ptr")]
-unsafe impl<T: ?Sized> DerefWrite for alloc::sync::Arc<T> {}
+unsafe impl<T: ?Sized + 'static> DerefWrite for alloc::sync::Arc<T> {}
 
 /// Types which preserve write barriers when indexed.
 ///
